@@ -5,13 +5,13 @@ use serde_json::json;
 use stam::*;
 
 /// operator in prefix tokens: any null true false eq:<hex> eqi:<n> eqf:<q> gt:<n> ge:<n> lt:<n> le:<n>
-/// gtf:<q> gef:<q> ltf:<q> lef:<q> has:<hex> hasi:<n> hasf:<q> dte:<ts> dta:<ts> dtb:<ts> dtae:<ts> dtbe:<ts>
+/// gtf:<q> gef:<q> ltf:<q> lef:<q> has:<hex> hasi:<n> hasf:<q> (ts = unix milliseconds) dte:<ts> dta:<ts> dtb:<ts> dtae:<ts> dtbe:<ts>
 /// not <op> | and <k> <op>… | or <k> <op>…
 pub fn parse_op(t: &[&str], pos: &mut usize) -> Option<DataOperator<'static>> {
     let tok = *t.get(*pos)?;
     *pos += 1;
     let q = |v: &str| -> Option<f64> { v.parse::<i64>().ok().map(|x| x as f64 / 4.0) };
-    let ts = |v: &str| -> Option<DateTime<FixedOffset>> { DateTime::from_timestamp(v.parse().ok()?, 0).map(|d| d.fixed_offset()) };
+    let ts = |v: &str| -> Option<DateTime<FixedOffset>> { DateTime::from_timestamp_millis(v.parse().ok()?).map(|d| d.fixed_offset()) };
     Some(match tok {
         "any" => DataOperator::Any,
         "null" => DataOperator::Null,
@@ -98,11 +98,11 @@ fn naive(v: &DataValue, t: &[&str], pos: &mut usize) -> Option<bool> {
                 (DataValue::Float(f), "gef") => ((*f * 4.0) as i64) >= qv(a)?,
                 (DataValue::Float(f), "ltf") => ((*f * 4.0) as i64) < qv(a)?,
                 (DataValue::Float(f), "lef") => ((*f * 4.0) as i64) <= qv(a)?,
-                (DataValue::Datetime(d), "dte") => d.timestamp() == qv(a)?,
-                (DataValue::Datetime(d), "dta") => d.timestamp() > qv(a)?,
-                (DataValue::Datetime(d), "dtb") => d.timestamp() < qv(a)?,
-                (DataValue::Datetime(d), "dtae") => d.timestamp() >= qv(a)?,
-                (DataValue::Datetime(d), "dtbe") => d.timestamp() <= qv(a)?,
+                (DataValue::Datetime(d), "dte") => d.timestamp_millis() == qv(a)?,
+                (DataValue::Datetime(d), "dta") => d.timestamp_millis() > qv(a)?,
+                (DataValue::Datetime(d), "dtb") => d.timestamp_millis() < qv(a)?,
+                (DataValue::Datetime(d), "dtae") => d.timestamp_millis() >= qv(a)?,
+                (DataValue::Datetime(d), "dtbe") => d.timestamp_millis() <= qv(a)?,
                 (DataValue::List(l), "has") => { let s = crate::fam::store::unhex_s(a); l.iter().any(|e| { let tk = format!("eq:{}", hex(&s)); naive(e, &[tk.as_str()], &mut 0).unwrap_or(false) }) }
                 (DataValue::List(l), "hasi") => l.iter().any(|e| matches!(e, DataValue::Int(n) if Some(*n as i64) == qv(a))),
                 (DataValue::List(l), "hasf") => l.iter().any(|e| matches!(e, DataValue::Float(f) if Some((*f * 4.0) as i64) == qv(a))),
@@ -117,7 +117,7 @@ fn values_menu() -> Vec<String> {
     for i in [-2, 0, 1, 3] { v.push(format!("i:{}", i)); }
     for q in [-3, 0, 2, 4, 13] { v.push(format!("f:{}", q)); }
     for s in ["v0", "v1", "3", "true", "yes", "", "TRUE"] { if !s.is_empty() { v.push(format!("s:{}", s)); } }
-    for d in [0, 100, 1700000000] { v.push(format!("d:{}", d)); }
+    for d in [0i64, 100, 1700000000250, 1700000000000] { v.push(format!("d:{}", d)); }
     for l in ["i:1|s:v0", "f:4|i:3|b:1", "s:3|n"] { v.push(format!("l:{}", l)); }
     v
 }
@@ -127,7 +127,7 @@ fn ops_menu(rng: &mut Rng) -> Vec<String> {
     for s in ["v0", "v1", "3", "1", "true", "yes", "off", "x y"] { base.push(format!("eq:{}", hex(s))); base.push(format!("has:{}", hex(s))); }
     for n in [-2, 0, 1, 3] { for k in ["eqi", "gt", "ge", "lt", "le", "hasi"] { base.push(format!("{}:{}", k, n)); } }
     for q in [-3, 0, 4, 12, 13] { for k in ["eqf", "gtf", "gef", "ltf", "lef", "hasf"] { base.push(format!("{}:{}", k, q)); } }
-    for d in [0, 100, 1700000000] { for k in ["dte", "dta", "dtb", "dtae", "dtbe"] { base.push(format!("{}:{}", k, d)); } }
+    for d in [0i64, 100, 1700000000250, 1700000000000] { for k in ["dte", "dta", "dtb", "dtae", "dtbe"] { base.push(format!("{}:{}", k, d)); } }
     let mut v = base.clone();
     for _ in 0..40 {
         let a = rng.pick(&base).clone();
